@@ -222,11 +222,14 @@ func runE2(c *run.Ctx, prop string) {
 	if prop == "C09" {
 		c09TwoCalls(c)
 	}
+	// every policy of the family is built in every shard (and in the replay), in this order, before any search starts:
+	// constructing or extending one policy must not change another (shared default tables would show here)
+	all := buildAll(specs)
 	for si, s := range specs {
 		if si%c.NShards != c.Shard {
 			continue
 		}
-		b := build(s)
+		b := all[si]
 		r := &e2Runner{b: &b}
 		hooks.SetLoopState(func(render func() string) { r.render = render })
 		t0 := time.Now()
@@ -548,6 +551,13 @@ func replayE2(raw json.RawMessage, prop string) (bool, string) {
 	var cs e2Case
 	json.Unmarshal(raw, &cs)
 	b := build(cs.Spec)
+	// as in the run: the whole family is built first, in the same order, and the policy under test is the one built
+	// at its place in that order
+	for _, fs := range buildAll(e2Specs()) {
+		if fs.S.Name == cs.Spec.Name && fs.S.String() == cs.Spec.String() {
+			b = fs
+		}
+	}
 	if cs.Before != nil {
 		San(b.P, *cs.Before)
 		out, pm := San(b.P, cs.Doc)
